@@ -24,6 +24,8 @@ pub mod h_c02;
 pub mod h_c16;
 pub mod h_agree;
 pub mod h_probe;
+pub mod h_hist;
+pub mod oracle { include!("gen/oracle.rs"); }
 
 pub mod registry;
 pub mod kf { include!("gen/kf.rs"); }
